@@ -146,6 +146,28 @@ func cmdCheck(args []string) int {
 	return run.Run()
 }
 
+// pickPart selects the part of a multi-package spec that defines the entry named in a case file.
+func pickPart(spec *CheckSpec, caseFile string) *CheckSpec {
+	if len(spec.Parts) == 0 {
+		return spec
+	}
+	data, _ := os.ReadFile(caseFile)
+	for _, line := range strings.Split(string(data), "\n") {
+		f := strings.Fields(line)
+		if len(f) >= 2 && f[0] == "case" {
+			for _, p := range spec.Parts {
+				for _, e := range p.Entries {
+					if e.Func == f[1] {
+						p.Property = spec.Property
+						return p
+					}
+				}
+			}
+		}
+	}
+	return spec.Parts[0]
+}
+
 // cmdReplay runs a saved counterexample natively.
 func cmdReplay(args []string) int {
 	if len(args) < 2 {
@@ -163,6 +185,7 @@ func cmdReplay(args []string) int {
 		fmt.Fprintln(os.Stderr, err)
 		return 2
 	}
+	spec = pickPart(spec, args[1])
 	r := &CheckRun{spec: spec, verifDir: "/verif", repoDir: "/repo"}
 	r.tmpDir, _ = os.MkdirTemp("", "gosym-")
 	defer os.RemoveAll(r.tmpDir)
@@ -209,6 +232,7 @@ func cmdRun(args []string) int {
 		fmt.Fprintln(os.Stderr, err)
 		return 2
 	}
+	spec = pickPart(spec, args[1])
 	prog, err := LoadProgram(spec, "/verif", "/repo")
 	if err != nil {
 		fmt.Fprintln(os.Stderr, err)
